@@ -296,7 +296,8 @@ def real_parse(variant, conf_path=None, argv=None):
         o = Outcome("exc", detail="%s: %s at %s" % (type(e).__name__, e, where), args=args)
         o.where = tb[-1].name if tb else None
         return o
-    s = dict(p.settings._v)
+    # public view of the settings object: its `default` dict names the attributes, values through attribute access
+    s = {k: getattr(p.settings, k) for k in p.settings.default}
     s.pop("load_phonopy_yaml", None)  # not a settings attribute: `default_settings` carries the key of argparse_control
     o = Outcome("ok", settings=s, confs=list(p.confs.keys()), args=args)
     o.obj = p.settings
